@@ -23,6 +23,8 @@ struct Cx<'a> {
     rep: &'a mut Report,
     args: &'a Args,
     cs: u64,
+    /// set when the case is driven by a fuzzer input instead of a case seed
+    replay: Option<Vec<(&'static str, String)>>,
 }
 
 impl<'a> Cx<'a> {
@@ -33,9 +35,18 @@ impl<'a> Cx<'a> {
             rule: "no-panic".into(),
             class: class.into(),
             detail: format!("[{}] {} panicked: {}", area, what, msg),
-            replay_args: self.args.to_vec_with(&[("case-seed", self.cs.to_string()), ("cases", "1".into())]),
+            replay_args: match &self.replay {
+                Some(r) => self.args.to_vec_with(r),
+                None => self.args.to_vec_with(&[("case-seed", self.cs.to_string()), ("cases", "1".into())]),
+            },
             trace,
         });
+    }
+    fn replay_args(&self) -> Vec<String> {
+        match &self.replay {
+            Some(r) => self.args.to_vec_with(r),
+            None => self.args.to_vec_with(&[("case-seed", self.cs.to_string()), ("cases", "1".into())]),
+        }
     }
     fn call<R>(&mut self, area: &str, what: &str, trace: impl FnOnce() -> Json, f: impl FnOnce() -> R) -> Option<R> {
         self.rep.obs("guarded_calls", 1);
@@ -185,7 +196,7 @@ fn area_format(cx: &mut Cx, r: &mut Rng) {
                         rule: "valid-is-sent".into(),
                         class: "valid-value-not-sent".into(),
                         detail: format!("a valid value was not handed to the sink exactly once ({} emits, reported invalid: {})", emitted.len(), reported_invalid),
-                        replay_args: cx.args.to_vec_with(&[("case-seed", cx.cs.to_string()), ("cases", "1".into())]),
+                        replay_args: cx.replay_args(),
                         trace: tr(),
                     });
                 }
@@ -195,7 +206,7 @@ fn area_format(cx: &mut Cx, r: &mut Rng) {
                         rule: "invalid-is-error".into(),
                         class: "invalid-value-not-reported".into(),
                         detail: format!("an invalid value was not reported as an invalid-input error ({} emits, result {:?})", emitted.len(), clip(&format!("{:?}", ret), 200)),
-                        replay_args: cx.args.to_vec_with(&[("case-seed", cx.cs.to_string()), ("cases", "1".into())]),
+                        replay_args: cx.replay_args(),
                         trace: tr(),
                     });
                 }
@@ -555,6 +566,23 @@ fn area_misc(cx: &mut Cx, r: &mut Rng) {
     }
 }
 
+/// One fuzzer input: the first byte picks the area, the rest drives its generator (see cvh::fuzz).
+fn fuzz_case(rep: &mut Report, args: &Args, data: &[u8]) {
+    let mut r = Rng::from_bytes(data);
+    let mut cx = Cx { rep, args, cs: 0, replay: Some(cvh::fuzz::replay_of(data)) };
+    match r.below(4) {
+        0 => area_format(&mut cx, &mut r),
+        1 => area_writer(&mut cx, &mut r),
+        2 => area_misc(&mut cx, &mut r),
+        _ => area_format(&mut cx, &mut r),
+    }
+}
+
+#[allow(dead_code)]
+pub fn fuzz_one(data: &[u8]) {
+    cvh::fuzz::step("hostile_driver(fuzz)", |rep, args| fuzz_case(rep, args, data));
+}
+
 fn main() {
     let args = Args::from_env();
     panics::install_hook();
@@ -566,6 +594,10 @@ fn main() {
     }
     rep.obs("debug_assertions_enabled", cfg!(debug_assertions) as u64);
     let area = args.str("area", "format");
+    if args.str("mode", "") == "fuzz-one" {
+        fuzz_case(&mut rep, &args, &cvh::fuzz::unhex(&args.str("hex", "")));
+        std::process::exit(rep.finish(args.get("out")));
+    }
     let seed = args.u64("seed", 1);
     let shard = args.u64("shard", 0);
     let cases = args.u64("cases", 50);
@@ -573,7 +605,7 @@ fn main() {
     for i in 0..cases {
         let cs = only.unwrap_or_else(|| mix(&[seed, 0xC20, cvh::rng::hash_str(&area), shard, i]));
         let mut r = Rng::new(cs);
-        let mut cx = Cx { rep: &mut rep, args: &args, cs };
+        let mut cx = Cx { rep: &mut rep, args: &args, cs, replay: None };
         match area.as_str() {
             "format" => area_format(&mut cx, &mut r),
             "writer" => area_writer(&mut cx, &mut r),
